@@ -325,19 +325,15 @@ Definition in_domain (c : call) : bool :=
   let l1 := elems (c_seq c) in let l2 := elems (c_seq2 c) in
   bounds_ok c && seq_ok (c_seq c) && seq_ok (c_seq2 c) && keywords_ok c &&
   match c_fn c with
-  | FFind | FPosition => not_test_not (c_test c)                       (* KF :test-not *)
-  | FFindIf | FPositionIf => true
-  | FCount => not_test_not (c_test c)
-  | FCountIf => true
-  | FRemove | FDelete => not_test_not (c_test c)
-  | FRemoveIf | FDeleteIf => true
+  | FFind | FPosition | FCount | FRemove | FDelete => true
+  | FFindIf | FPositionIf | FCountIf | FRemoveIf | FDeleteIf => true
   | FSubstitute | FNsubstitute => not_test_not (c_test c)               (* KF :test-not ignored *)
   | FSubstituteIf | FNsubstituteIf => true
   | FRemoveDuplicates | FDeleteDuplicates =>
       (* under :from-end the test receives (later element, earlier element): the order the language
          implies (sequence order) only for symmetric tests *)
-      not_test_not (c_test c) && (negb (c_from_end c) || test_symmetric (c_test c))
-  | FMember => is_list (c_seq c) && not_test_not (c_test c)
+      negb (c_from_end c) || test_symmetric (c_test c)
+  | FMember => is_list (c_seq c) && not_test_not (c_test c)              (* KF :test-not (own keyword loops) *)
   | FMemberIf => is_list (c_seq c)
   | FAssoc | FRassoc => is_list (c_seq c) && not_test_not (c_test c)     (* KF :test-not *)
   | FAssocIf | FAssocIfNot | FRassocIf => is_list (c_seq c)
